@@ -291,7 +291,7 @@ def st_none(orc):
     return orc["status"] == "none"
 
 
-class CaseTimeout(Exception):
+class CaseTimeout(BaseException):  # not an Exception: "except Exception" inside einx or sympy must not swallow the watchdog
     pass
 
 
@@ -424,7 +424,7 @@ def run(spec, out):
             # matches() is solve_shapes() behind a bare except. einx's acceptance of systems that are unique only
             # by search can differ between repetitions (sympy path), so agreement is recorded, not demanded (C16
             # decides reproducibility).
-            m = einx.matches(desc, *tensors, **kwargs)
+            m = einx.matches(desc, *tensors, **kwargs)  # (a bare 'except:' in matches may swallow the watchdog: m is then False, which no rule below objects to)
             out.count("matches_consistent" if (got[0] == "ok") == bool(m) else "matches_flipped")
             if st_none(orc) and m:
                 out.violation({"kind": "accepted-unsolvable", "api": "matches", "risk": risk}, witness, f"matches({desc!r}, shapes={witness['shapes']}, {witness['kwargs']}) is True but no assignment exists")
